@@ -2,8 +2,16 @@ import AlgoVerif.Model.C01
 /-!
 Line-protocol component for C01 and C15 (keys and values are `Int`, `eqVal` is `==`).
 
-Header: `comp=bst|avl|rb cmp=asc|desc|diff|diff7|rdiff [dump=1]` (`diff` = `a-b`, `diff7` = `7*(a-b)`,
-`rdiff` = `b-a`: comparators that do not return -1/0/+1).  With `dump=1` every state-changing call appends
+Header: `comp=bst|avl|rb cmp=<c> [cmp2=<c>] [cmp3=<c>] [eq=<e>] [eq2=<e>] [eq3=<e>] [dump=1]` with
+`<c>` = `asc|desc|diff|diff7|rdiff|rdiff3|abssign|evenodd` (`diff` = `a-b`, `diff7` = `7*(a-b)`, `rdiff` = `b-a`,
+`rdiff3` = `3*(b-a)`: comparators that do not return -1/0/+1; `abssign` = by absolute value then sign,
+`evenodd` = even keys first) and `<e>` = `id|par|any` (`==`, same parity, always true).  `cmp`/`eq` are the
+constructor arguments of table `a`, `cmp2`/`eq2` of table `b`, `cmp3`/`eq3` of table `c` (default: those of
+`a`).  Lines that are not a single call of the Model: `dump`; `rangekeep lo hi` (= `range`; the harness keeps
+the returned slice and re-reads it after every later call); `alltwice` (one `All()` sequence ranged over
+twice), `allnested` (an `All()` loop inside an `All()` loop), `allpull n` (two `iter.Pull2` iterators over
+`All()` advanced alternately, the first abandoned after `n` pairs): each prints two listings.
+With `dump=1` every state-changing call appends
 ` | <dump of the table it changed>`.  `dump` prints the current table: pre-order
 `(key val size L R)` for the BST, `(key val size height L R)` for AVL, `(key val size R|B L R)` for
 LLRB, `.` for nil — the format of the hook `symboltable.VerifDump`.
@@ -89,6 +97,8 @@ def parseOp (ws : List String) : Option (Op Int Int) :=
   | ["equalother"] => some .equalOther
   | ["traverse", o, lim] => do some (.traverse (← parseOrder o) (← parseNat? lim))
   | ["equal"] => some .equal
+  | ["equalself"] => some .equalSelf
+  | ["rangekeep", lo, hi] => do some (.range (← parseInt? lo) (← parseInt? hi))
   | "anymatch" :: p => do some (.anyMatch (← parsePred p))
   | "allmatch" :: p => do some (.allMatch (← parsePred p))
   | "firstmatch" :: p => do some (.firstMatch (← parsePred p))
@@ -98,10 +108,27 @@ def parseOp (ws : List String) : Option (Op Int Int) :=
 
 /-- which table(s) a call changed, for the `dump=1` suffix -/
 def dumpSuffix (kind : Kind) (s : State Int Int) : Op Int Int → String
-  | .put .. | .delete .. | .deleteMin | .deleteMax | .deleteAll | .swap | .swapC => " | " ++ dumpTree kind s.1
-  | .selectMatch _ => " | " ++ dumpTree kind s.2.1
-  | .partitionMatch _ => " | " ++ dumpTree kind s.2.1 ++ " | " ++ dumpTree kind s.2.2
+  | .put .. | .delete .. | .deleteMin | .deleteMax | .deleteAll | .swap | .swapC => " | " ++ dumpTree kind s.1.root
+  | .selectMatch _ => " | " ++ dumpTree kind s.2.1.root
+  | .partitionMatch _ => " | " ++ dumpTree kind s.2.1.root ++ " | " ++ dumpTree kind s.2.2.root
   | _ => ""
+
+def parseCmp : Option String → Option (Int → Int → Int)
+  | some "asc" => some cmpAsc
+  | some "desc" => some cmpDesc
+  | some "diff" => some cmpDiff
+  | some "diff7" => some cmpDiff7
+  | some "rdiff" => some cmpRDiff
+  | some "rdiff3" => some cmpRDiff3
+  | some "abssign" => some cmpAbsSign
+  | some "evenodd" => some cmpEvenOdd
+  | _ => none
+
+def parseEq : Option String → Option (Int → Int → Bool)
+  | some "id" => some eqInt
+  | some "par" => some eqParity
+  | some "any" => some eqAny
+  | _ => none
 
 def runCase (hdr : List String) (ops : List String) : List String := Id.run do
   let kind? : Option Kind := match headerGet hdr "comp" with
@@ -110,26 +137,34 @@ def runCase (hdr : List String) (ops : List String) : List String := Id.run do
     | some "rb" => some .rb
     | _ => none
   let some kind := kind? | return ops.map fun _ => "bad-case"
-  let cmp := match headerGet hdr "cmp" with
-    | some "desc" => cmpDesc
-    | some "diff" => cmpDiff
-    | some "diff7" => cmpDiff7
-    | some "rdiff" => cmpRDiff
-    | _ => cmpAsc
+  let cmpA := (parseCmp (headerGet hdr "cmp")).getD cmpAsc
+  let cmpB := (parseCmp (headerGet hdr "cmp2")).getD cmpA
+  let cmpC := (parseCmp (headerGet hdr "cmp3")).getD cmpA
+  let eqA := (parseEq (headerGet hdr "eq")).getD eqI
+  let eqB := (parseEq (headerGet hdr "eq2")).getD eqA
+  let eqC := (parseEq (headerGet hdr "eq3")).getD eqA
   let withDump := headerNat hdr "dump" 0 == 1
-  let mut s : State Int Int := (.nil, .nil, .nil)
+  let mut s : State Int Int := (.new cmpA eqA, .new cmpB eqB, .new cmpC eqC)
   let mut dead := false
   let mut out : Array String := #[]
   for line in ops do
     if dead then out := out.push "skip"; continue
     let ws := words line
     if ws == ["dump"] then
-      out := out.push ("ok " ++ dumpTree kind s.1)
+      out := out.push ("ok " ++ dumpTree kind s.1.root)
       continue
+    if ws == ["alltwice"] || ws == ["allnested"] then
+      let l := showKVs (all s.1.root)
+      out := out.push s!"ok {l} {l}"
+      continue
+    if let ["allpull", n] := ws then
+      if let some n := parseNat? n then
+        out := out.push s!"ok {showKVs (allUntil n s.1.root)} {showKVs (all s.1.root)}"
+        continue
     match parseOp ws with
     | none => out := out.push "bad-op"
     | some op =>
-      match step kind cmp eqI s op with
+      match step kind s op with
       | .ok (s', o) =>
         let suffix := if withDump then dumpSuffix kind s' op else ""
         s := s'
